@@ -1,4 +1,5 @@
-import NunavutVerif.Model.Resolve
+import NunavutVerif.Model.ResolveDirs
+import NunavutVerif.Model.EnvCtor
 import NunavutVerif.Proto
 /-!
 Driver for the C16 correspondence.  One request per line, fields separated by one blank.  Strings are encoded
@@ -16,9 +17,19 @@ as in `Proto` (code points joined by `.`, `-` = empty string).  `!` = absent (`N
         answer: `r,r,…|idx:path,…` (`N` = no template; cache sorted by class index, `~` if empty) or `fuel`
   `src <fs> <pkg> <name>`                  → `user:<id>` / `builtin:<id>` / `notfound`;
         fs: `!` or directories joined by `;`, each `~` or `name=id,…`; pkg: `!`, `~` or `name=id,…`
+  `seqd <hier> <dirs> <pkg> <qs>`          → as `seq new`, on a loader over a LIST of user directories;
+        dirs: `!` or directories joined by `;`, each `~` or its file names joined by `,` (any order); pkg: `!`, `~` or names
+  `fslist <dirs>`                          → `FileSystemLoader.list_templates()` of the directories (names joined by `,`, `~`)
+  `enum <dirs> <pkg>`                      → `get_templates()`: `u<i>:<name>` / `b:<name>` joined by `,` (`~` = none)
+  `ldr <policy first|all> <dirs 0|1> <pkg 0|1>` → `<fs 0|1><pkg 0|1>`: which Jinja loaders `DSDLTemplateLoader.__init__` creates
   `env <new|old> <allow 0|1> <jf> <jt> <jg> <lg> <pf> <pt> <post> <ug> <uf> <ut>`
         name lists (`~` or names joined by `,`); post entries `f:<name>` / `t:<name>`
         → `err:already:<name>` / `err:reserved:<name>` / `ok|<filters>|<tests>|<globals>` with `name=owner,…`
+  `envsm <gen|sup|bld> <allowArg 0|1> <attrs> <jf> <jt> <jg> <lg> <lf> <lt> <of> <ot> <inst> <genm> <ug> <uf> <ut>`
+        the construction as the state machine over the REGENERATED statement list (DSDLCodeGenerator / SupportGenerator /
+        bare builder); attrs: boolean attributes of the loader object `name=0|1,…` (`~` = none);
+        lf, lt: language-module filters/tests; of, ot: the environment's own; inst, genm: `f:<name>` / `t:<name>`
+        → as `env`, plus `|flag=<0|1|n>` (final `_allow_replacements`), or `err:flagunset:<name>`
 -/
 open NunavutVerif NunavutVerif.Resolve NunavutVerif.Proto
 
@@ -68,6 +79,21 @@ def parseStore (s : String) : Option Store :=
     | [n, v] => do some ((← decodeStr n), (← v.toNat?))
     | _ => none
 
+def parseDirs (s : String) : Option (Option (List Store)) :=
+  if s = "!" then some none else do
+    let ds ← (splitOnChar s ';').mapM parseNames
+    some (some ((ds.zip (List.range ds.length)).map fun e => e.1.map fun n => (n, e.2)))
+
+def parsePkgNames (s : String) : Option (Option Store) :=
+  if s = "!" then some none else (parseNames s).map fun ns => some (ns.map fun n => (n, 0))
+
+def showNames (ns : List Name) : String := if ns.isEmpty then "~" else ",".intercalate (ns.map encodeStr)
+
+def doSeqDirs (H : Hier) (dirs : Option (List Store)) (pkg : Option Store) (qs : List Nat) : String :=
+  match runSeq (fun cache c => lookupDirs H suffix 1000000 cache dirs pkg c) [] qs with
+  | none => "fuel"
+  | some (rs, cache) => ",".intercalate (rs.map showRes) ++ "|" ++ showCache cache
+
 def showOwner : Owner → String
   | .jinja => "J" | .reserved => "R" | .lang => "L"
   | .pre i => s!"P{i}" | .post i => s!"Q{i}" | .user i => s!"U{i}"
@@ -85,6 +111,53 @@ def parsePost (s : String) : Option (List (Kind × Name × Owner)) := do
     | ["t", n] => (decodeStr n).map fun n => (Kind.test, n)
     | _ => none
   some ((es.zip (List.range es.length)).map fun e => (e.1.1, e.1.2, Owner.post e.2))
+
+def parseAttrs (s : String) : Option (List (Name × Bool)) :=
+  (splitList s ',').mapM fun e =>
+    match e.splitOn "=" with
+    | [n, v] => do
+      let n ← decodeStr n
+      if v = "1" then some (n, true) else if v = "0" then some (n, false) else none
+    | _ => none
+
+def parseKinded (mk : Nat → Owner) (s : String) : Option (List (Kind × Name × Owner)) := do
+  let es ← (splitList s ',').mapM fun e =>
+    match e.splitOn ":" with
+    | ["f", n] => (decodeStr n).map fun n => (Kind.filter, n)
+    | ["t", n] => (decodeStr n).map fun n => (Kind.test, n)
+    | _ => none
+  some ((es.zip (List.range es.length)).map fun e => (e.1.1, e.1.2, mk e.2))
+
+def tagFrom (mk : Nat → Owner) (off : Nat) (ns : List Name) : List (Name × Owner) :=
+  (ns.zip (List.range ns.length)).map fun e => (e.1, mk (e.2 + off))
+
+def answerEnvSM (fields : List String) : String :=
+  match fields with
+  | [which, allow, attrs, jf, jt, jg, lg, lf, lt, of', ot, inst, genm, ug, uf, ut] =>
+    match parseAttrs attrs, parseNames jf, parseNames jt, parseNames jg, parseNames lg, parseNames lf, parseNames lt,
+          parseNames of', parseNames ot, parseKinded Owner.post inst, parseKinded (fun i => Owner.post (i + 100000)) genm,
+          parseNames ug, parseNames uf, parseNames ut with
+    | some attrs, some jf, some jt, some jg, some lg, some lf, some lt, some of', some ot, some inst, some genm,
+      some ug, some uf, some ut =>
+      if (which ≠ "gen" ∧ which ≠ "sup" ∧ which ≠ "bld") ∨ (allow ≠ "0" ∧ allow ≠ "1") then "bad-op" else
+      let cfg : SMCfg := {
+        jinjaFilters := jf.map (·, Owner.jinja), jinjaTests := jt.map (·, Owner.jinja), jinjaGlobals := jg.map (·, Owner.jinja),
+        reservedNs := Gen.PydsdlClasses.reservedGlobalNamespaces, reservedNames := Gen.PydsdlClasses.reservedGlobalNames,
+        langGlobals := lg.map (·, Owner.lang),
+        langFilters := tagFrom Owner.pre 0 lf, langTests := tagFrom Owner.pre 0 lt,
+        ownFilters := tagFrom Owner.pre lf.length of', ownTests := tagFrom Owner.pre lt.length ot,
+        instanceTests := inst, generatorMethods := genm }
+      let inp : CtorInputs := { allowArg := allow = "1", loader := ⟨attrs⟩, unknown := fun _ => false,
+                                ug := tag Owner.user ug, uf := tag Owner.user uf, ut := tag Owner.user ut }
+      let steps := if which = "gen" then stepsDsdlGenerator else if which = "sup" then stepsSupportGenerator else stepsBuilder
+      match constructSM cfg inp steps with
+      | .error (.env (.alreadyDefined n)) => "err:already:" ++ encodeStr n
+      | .error (.env (.reservedGlobal n)) => "err:reserved:" ++ encodeStr n
+      | .error (.flagUnset n) => "err:flagunset:" ++ encodeStr n
+      | .ok st => "ok|" ++ showColl st.env.filters ++ "|" ++ showColl st.env.tests ++ "|" ++ showColl st.env.globals ++
+          "|flag=" ++ (match st.allow with | some true => "1" | some false => "0" | none => "n")
+    | _, _, _, _, _, _, _, _, _, _, _, _, _, _ => "bad-op"
+  | _ => "bad-op"
 
 def answer (line : String) : String :=
   match line.splitOn " " with
@@ -121,6 +194,28 @@ def answer (line : String) : String :=
       else if mode = "old" then doSeq true H fs pkg qs
       else "bad-op"
     | _, _, _, _ => "bad-op"
+  | ["seqd", hier, dirs, pkg, qs] =>
+    match parseHier hier, parseDirs dirs, parsePkgNames pkg, (splitList qs ',').mapM String.toNat? with
+    | some H, some dirs, some pkg, some qs => doSeqDirs H dirs pkg qs
+    | _, _, _, _ => "bad-op"
+  | ["fslist", dirs] =>
+    match parseDirs dirs with
+    | some (some ds) => showNames (fsList ds)
+    | _ => "bad-op"
+  | ["enum", dirs, pkg] =>
+    match parseDirs dirs, parsePkgNames pkg with
+    | some dirs, some pkg =>
+      let es := getTemplates suffix dirs pkg
+      if es.isEmpty then "~" else ",".intercalate (es.map fun e =>
+        match e with
+        | (.user, i, p) => s!"u{i}:" ++ encodeStr p
+        | (.builtin, _, p) => "b:" ++ encodeStr p)
+    | _, _ => "bad-op"
+  | ["ldr", policy, d, p] =>
+    if (policy ≠ "first" ∧ policy ≠ "all") ∨ (d ≠ "0" ∧ d ≠ "1") ∨ (p ≠ "0" ∧ p ≠ "1") then "bad-op" else
+    let r := loaderSources (if policy = "all" then .findAll else .findFirst)
+      (if d = "1" then some [] else none) (if p = "1" then some [] else none)
+    (if r.1.isSome then "1" else "0") ++ (if r.2.isSome then "1" else "0")
   | ["src", fs, pkg, name] =>
     let fs? : Option (Option (List Store)) :=
       if fs = "!" then some none else ((splitOnChar fs ';').mapM parseStore).map some
@@ -132,6 +227,7 @@ def answer (line : String) : String :=
       | some (.builtin, v) => s!"builtin:{v}"
       | none => "notfound"
     | _, _, _ => "bad-op"
+  | "envsm" :: fields => answerEnvSM fields
   | ["env", mode, allow, jf, jt, jg, lg, pf, pt, post, ug, uf, ut] =>
     match parseNames jf, parseNames jt, parseNames jg, parseNames lg, parseNames pf, parseNames pt,
           parsePost post, parseNames ug, parseNames uf, parseNames ut with
